@@ -160,7 +160,7 @@ impl Bus {
             }
             (a, b) => {
                 self.log.push(json!({"t": "connect-failed", "cl": i,
-                    "conn": a.map(|x| x.is_ok()), "client": b.map(|x| x.map(|_| ()).map_err(|e| e))}));
+                    "conn": a.map(|x| x.is_ok()).unwrap_or(false), "client": b.map(|x| x.is_ok()).unwrap_or(false)}));
                 None
             }
         }
